@@ -2734,6 +2734,13 @@ void ev_callback_read(JanetFiber *fiber, JanetAsyncEvent event) {
             JanetBuffer *buffer = state->buf;
             int32_t bytes_left = state->bytes_left;
             int32_t read_limit = state->is_chunk ? (bytes_left > 4096 ? 4096 : bytes_left) : bytes_left;
+            /* The fiber is attached to the stream and its timeout is armed by now: an error has to
+             * reach it through the scheduler, which also invalidates those, not by raising here. */
+            if (buffer->count > INT32_MAX - read_limit) {
+                janet_cancel(fiber, janet_cstringv("buffer overflow"));
+                janet_async_end(fiber);
+                break;
+            }
             janet_buffer_extra(buffer, read_limit);
             ssize_t nread;
 #ifdef JANET_NET
